@@ -293,7 +293,7 @@ class ConnectionPool(RequestInterface):
             if connection.is_closed():
                 # log: "removing closed connection"
                 self._connections.remove(connection)
-            elif connection.has_expired():
+            elif connection.has_expired() and connection not in assigned:
                 # log: "closing expired connection"
                 self._connections.remove(connection)
                 closing_connections.append(connection)
